@@ -153,6 +153,15 @@ def run_frame(case, ctx):
     # scalar form
     C0 = ctx.sut(transform.mat_en_from_ll, float(lat[0]), float(lon[0]))
     ctx.check(C0.shape == (3, 3) and np.abs(C0 - C[0]).max() <= 4 * EPS, 'form_scalar_mat_en', 'scalar vs stacked')
+    # whole-degree latitudes handed over as an INTEGER array (or list of ints) next to fractional float longitudes, and the
+    # other way round: the argument dtypes are independent of each other
+    lat_i = np.clip(np.rint(lat), -90, 90).astype(np.int64)
+    lon_i = np.clip(np.rint(lon), -180, 180).astype(np.int64)
+    for tag, a, b in (('int_lat', lat_i, lon), ('int_lon', lat, lon_i), ('list_int_lat', [int(v) for v in lat_i], lon)):
+        Ci = ctx.sut(transform.mat_en_from_ll, a, b)
+        Cf = W.ned_axes(np.asarray(a, float), np.asarray(b, float))
+        ei = np.abs(Ci - Cf).max()
+        ctx.check(ei <= 8 * EPS, f'ned_axes:{tag}', lambda: f'{tag}: |C - ref| = {ei:.3e} (integer-typed argument next to a float one)')
     # partial derivatives of the LIBRARY's lla_to_ecef by central differences, |lat| <= 89.9
     m = np.abs(lat) <= 89.9
     if m.any():
